@@ -38,6 +38,8 @@ static std::vector<uint32_t> operand_coupons(const std::string& st, int lg, int 
     for (uint32_t s = 0; s < k; ++s) c.push_back(hc::mk_coupon(s, 1 + (s + ti) % 3));
     c.push_back(hc::mk_coupon(3, 17 + ti)); c.push_back(hc::mk_coupon(k - 1, 16)); c.push_back(hc::mk_coupon(k / 2 + 1, 40));   // HLL_4 exceptions at cur_min 1
     if (ti == 2) c.push_back(hc::mk_coupon(0, 63));
+    // values above 15 (more than four bits) in slots of every residue mod 4: the 6-bit packing puts four registers in three bytes
+    c.push_back(hc::mk_coupon(4, 33)); c.push_back(hc::mk_coupon(8, 18)); c.push_back(hc::mk_coupon(2, 21)); c.push_back(hc::mk_coupon(6, 19)); c.push_back(hc::mk_coupon(9, 25));
   } else if (st == "FS2") {
     c.push_back(hc::mk_coupon(5, 3)); c.push_back(hc::mk_coupon(5 + k / 2, 6));
   }
